@@ -6,7 +6,7 @@ import statsmodels.formula.api as smf
 import gen
 from common import rq, fx, unfx, enc_list, close
 
-REQUIRED = ['iptw_saturated', 'iptw_measures_saturated', 'gformula_saturated', 'gformula_generated', 'iptw_final_weight_generated', 'aipw_saturated']
+REQUIRED = ['iptw_saturated', 'iptw_measures_saturated', 'gformula_saturated', 'gformula_generated', 'iptw_final_weight_generated', 'aipw_calc_generated', 'aipw_saturated']
 RULE = ('random data sets with 1-3 categorical covariates (arity 2-4, <= 12 strata), positivity by construction, '
         'outcome binary / normal / count, with and without integer frequency weights; configuration cells enumerated '
         'per data set: IPTW stabilized x standardize (6), g-formula standardize (3), AIPTW, TMLE; every nuisance model '
@@ -83,6 +83,23 @@ def run_iptw(chk, drv, df, covs, ytype, wcol, cf, dsid, rec):
                        'm0': float(np.exp(ipt.average_treatment_effect.loc['Intercept', 'ATE']))}
             got = {k: float(v) for k, v in got.items()}
             case['impl'] = got
+            # history: a second fit() of the same specification on the same object changes nothing, and fit() does not
+            # write into the exposed weights (state leaking between calls shows up here)
+            w_before = np.array(ipt.iptw, dtype=float, copy=True)
+            ipt.fit(continuous_distribution=dist)
+            if ytype == 'binary':
+                again = {'RD': ipt.risk_difference.loc['A', 'RD'], 'RR': ipt.risk_ratio.loc['A', 'RR'],
+                         'OR': ipt.odds_ratio.loc['A', 'OR'], 'm0': ipt.risk_difference.loc['Intercept', 'RD']}
+            elif ytype == 'normal':
+                again = {'ATE': ipt.average_treatment_effect.loc['A', 'ATE'],
+                         'm0': ipt.average_treatment_effect.loc['Intercept', 'ATE']}
+            else:
+                again = {'ratio': float(np.exp(ipt.average_treatment_effect.loc['A', 'ATE'])),
+                         'm0': float(np.exp(ipt.average_treatment_effect.loc['Intercept', 'ATE']))}
+            chk.d(all(close(float(again[k]), got[k], rtol=1e-10, atol=1e-12) for k in got),
+                  'IPTW: a second fit() on the same object reproduces the first', dict(case, second=str(again)))
+            chk.d(np.allclose(np.asarray(ipt.iptw, dtype=float), w_before, rtol=0, atol=0, equal_nan=True),
+                  'IPTW.fit leaves the exposed weights IPTW.iptw untouched', case)
             want = measures(cf[(tgt, 1)], cf[(tgt, 0)], ytype)
             want['m0'] = float(cf[(tgt, 0)])
             # with missing outcomes and a frequency-weight column the missingness model of IPTW is fitted unweighted
@@ -126,6 +143,13 @@ def run_gformula(chk, drv, df, covs, ytype, wcol, cf, dsid, rec):
         g.fit('none')
         r0 = float(g.marginal_outcome)
         q0 = np.asarray(g.predicted_df['Y'], dtype=float)
+        # history: a stochastic fit in between must not leak into a later deterministic fit
+        if ytype == 'binary':
+            g.fit_stochastic(p=0.5, samples=3, seed=7)
+            g.fit('all')
+            chk.d(close(float(g.marginal_outcome), r1, rtol=1e-12, atol=1e-14),
+                  "g-formula: fit('all') after fit_stochastic() on the same object reproduces the first fit('all') (%s)" % tgt,
+                  dict(case, first=r1, after=float(g.marginal_outcome)))
         case['impl'] = [r1, r0]
         chk.d(close(r1, float(cf[(tgt, 1)]), **TOL) and close(r0, float(cf[(tgt, 0)]), **TOL),
               "g-formula fit('all')/fit('none') = closed-form standardization (%s)" % tgt,
@@ -169,6 +193,11 @@ def run_aiptw(chk, drv, df, covs, ytype, wcol, cf, dsid, rec):
     else:
         got = {'ATE': float(a.average_treatment_effect)}
     case['impl'] = got
+    a.fit()
+    again = ({'RD': float(a.risk_difference), 'RR': float(a.risk_ratio)} if ytype == 'binary'
+             else {'ATE': float(a.average_treatment_effect)})
+    chk.d(all(close(again[k], got[k], rtol=1e-12, atol=1e-14) for k in got),
+          'AIPTW: a second fit() on the same object reproduces the first', dict(case, second=again))
     for k, v in got.items():
         chk.d(close(v, want[k], **TOL), 'AIPTW %s = closed-form standardization' % k, dict(case, want=want))
     if drv is not None:
@@ -251,8 +280,49 @@ def one_dataset(chk, drv, rng, ytype, wcol, missing, which):
             run_tmle(chk, drv, df, covs, ytype, cf, dsid, rec, cb)
 
 
+def aipw_calculator_direct(chk, drv, rng, n_cases):
+    """gate K for the definition generated from the text of `aipw_calculator`: direct calls on random vectors, with
+    missing (NaN) outcomes, with and without weights, difference and ratio (estimate and variance)"""
+    from zepid.causal.utils import aipw_calculator
+    import pandas as pd
+    for _ in range(n_cases):
+        n = int(rng.integers(8, 60))
+        a = rng.integers(0, 2, size=n).astype(float)
+        a[:2] = [0.0, 1.0]
+        y = np.round(rng.uniform(0, 1, size=n), 3) if rng.uniform() < 0.5 else rng.integers(0, 2, size=n).astype(float)
+        miss = rng.uniform(size=n) < float(rng.choice([0.0, 0.0, 0.2, 0.4]))
+        miss[:4] = False
+        y = np.where(miss, np.nan, y)
+        q1, q0 = rng.uniform(0.05, 0.95, size=n), rng.uniform(0.05, 0.95, size=n)
+        g1 = rng.uniform(0.1, 0.9, size=n)
+        g0 = 1 - g1 if rng.uniform() < 0.5 else rng.uniform(0.1, 0.9, size=n)   # AIPTW bounds g1 and g0 separately
+        hasw = bool(rng.uniform() < 0.5)
+        w = rng.integers(1, 5, size=n).astype(float) if hasw else None
+        diff = bool(rng.uniform() < 0.5)
+        case = {'fn': 'aipw_calculator', 'n': n, 'difference': diff, 'weights': hasw, 'missing': int(miss.sum()),
+                'a': a.tolist(), 'y': [None if np.isnan(v) else float(v) for v in y], 'q1': q1.tolist(), 'q0': q0.tolist(),
+                'g1': g1.tolist(), 'g0': g0.tolist(), 'w': None if w is None else w.tolist()}
+        chk.case(case, ('aipw_calculator', hash(str(case))) if miss.any() or hasw else None)
+        chk.count('aipw_calculator/%s/%s/%s' % ('diff' if diff else 'ratio', 'w' if hasw else 'nw', 'nan' if miss.any() else 'complete'))
+        est, var = aipw_calculator(y=y, a=a, py_a=q1, py_n=q0, pa1=g1, pa0=g0, difference=diff,
+                                   weights=None if w is None else pd.Series(w), splits=None, continuous=True)
+        if drv is None:
+            continue
+        rep, _ = drv.ask('aipwcalc', c='f', difference=int(diff), hasw=int(hasw), nan=fx(float('nan')),
+                         s=enc_list([0] * n, str), a=enc_list(a.astype(int), str),
+                         y=','.join('_' if np.isnan(v) else fx(v) for v in y),
+                         w=enc_list(np.ones(n) if w is None else w, fx), q1=enc_list(q1, fx), q0=enc_list(q0, fx),
+                         g1=enc_list(g1, fx), g0=enc_list(g0, fx))
+        ok = rep['status'] == 'ok' and close(unfx(rep['est']), est, rtol=1e-10, atol=1e-12) and \
+            close(unfx(rep['var']), var, rtol=1e-9, atol=1e-14)
+        chk.k(ok, 'aipw_calculator = definition generated from its source (estimate and variance, NaN outcomes skipped)',
+              dict(case, impl=[float(est), float(var)], model=rep))
+
+
+
 def run(chk, drv, rng, tier):
     reps = 5 if tier == "quick" else 40
+    aipw_calculator_direct(chk, drv, rng, 150 if tier == 'quick' else 2000)
     for _ in range(reps):
         for ytype in ('binary', 'normal', 'poisson'):
             for wcol in (None, 'w'):
